@@ -101,6 +101,8 @@ type MutWorld struct {
 
 	sums     map[*ssa.Function]*MutSummary
 	progress map[*ssa.Function]bool
+	retPub   map[*ssa.Function][]Taint
+	retBusy  map[*ssa.Function]bool
 }
 
 func NewMutWorld(p *Program) *MutWorld {
@@ -529,6 +531,32 @@ func (w *MutWorld) callTaint(fn *ssa.Function, call *ssa.Call, get func(ssa.Valu
 				set(call, TSelf)
 			}
 		}
+		// storing a published value into a reflected message / list / map makes that object (and the message it
+		// reflects) a container of published parts: a later deep mutator on it writes those parts
+		if m == "Set" || m == "Append" {
+			stored := false
+			for _, a := range cc.Args {
+				if get(a) != 0 {
+					stored = true
+				}
+			}
+			if stored && get(cc.Value)&TSelf == 0 {
+				v := cc.Value
+				for depth := 0; depth < 6 && v != nil; depth++ {
+					set(v, TElem)
+					c2, ok := v.(*ssa.Call)
+					if !ok || !c2.Call.IsInvoke() {
+						break
+					}
+					switch c2.Call.Method.Name() {
+					case "ProtoReflect", "Interface", "Message", "List", "Map", "Mutable", "New":
+						v = c2.Call.Value
+					default:
+						v = nil
+					}
+				}
+			}
+		}
 		return
 	}
 	if idx, ok := extAlias[name]; ok && idx < len(cc.Args) {
@@ -558,6 +586,17 @@ func (w *MutWorld) callTaint(fn *ssa.Function, call *ssa.Call, get func(ssa.Valu
 	if callee == fn {
 		return
 	}
+	// results that are published by the callee's own doing (it returns what it read from a resource)
+	for r, tt := range w.retPublished(callee) {
+		if tt == 0 {
+			continue
+		}
+		if callee.Signature.Results().Len() == 1 {
+			set(call, tt)
+		} else {
+			set(extractKey{call, r}, tt)
+		}
+	}
 	sum := w.Summary(callee)
 	if sum == nil {
 		return
@@ -576,6 +615,26 @@ func (w *MutWorld) callTaint(fn *ssa.Function, call *ssa.Call, get func(ssa.Valu
 			}
 		}
 	}
+}
+
+// retPublished: per result, the taint it carries when the callee is analysed with the world's sources only
+// (no published arguments): e.g. a finder that returns the stored message of a collection.
+func (w *MutWorld) retPublished(callee *ssa.Function) []Taint {
+	if w.retPub == nil {
+		w.retPub = map[*ssa.Function][]Taint{}
+		w.retBusy = map[*ssa.Function]bool{}
+	}
+	if r, ok := w.retPub[callee]; ok {
+		return r
+	}
+	if w.retBusy[callee] || len(callee.Blocks) == 0 || len(w.retBusy) > 6 {
+		return nil
+	}
+	w.retBusy[callee] = true
+	res := w.run(callee, map[ssa.Value]Taint{}, true)
+	delete(w.retBusy, callee)
+	w.retPub[callee] = res.ret
+	return res.ret
 }
 
 func (w *MutWorld) fileOfFunc(f *ssa.Function) string {
